@@ -10,7 +10,7 @@ import (
 
 // ---- filter configurations ---------------------------------------------------------------------------
 
-// 34 fixed configurations (index = tag cfg:kNN); every one is exercised in the quick tier.
+// 40 fixed configurations (index = tag cfg:kNN); every one is exercised in the quick tier.
 var scopeCfgs = []scInput{
 	{},                          // 0 defaults only (archive.org, archive-it.org)
 	{EH: []string{"ads."}},      // 1
@@ -46,6 +46,13 @@ var scopeCfgs = []scInput{
 	{RE: []string{`\?flag=$`}},                        // matches URL.String() (query re-encoded: "?flag" -> "?flag="), not ada's href
 	{RE: []string{`\?flag$`, `%7C`}},                  // matches ada's href only / String() only
 	{ES: []string{"b=2&"}, RE: []string{`\+`}},        // "?a=b c": href has %20, String() has +
+	// --exclusion-file given several times: GenerateCrawlConfig appends every file's expressions
+	{RE: []string{`\.pdf$`}, RF: [][]string{{`/private/`}}},
+	{RE: []string{`(?i)logout`}, RF: [][]string{{}, {`[0-9]{4}`}}}, // an empty file in between
+	{RE: []string{`/private/`}, RF: [][]string{{`/private/`}}},    // the same line in two files
+	{RF: [][]string{{}, {}}},                                      // only empty files
+	{RE: []string{`\.png$`, `\.css`}, RF: [][]string{{`zzz-never`}}}, // the last file matches nothing
+	{IH: []string{"example"}, RE: []string{`^http://`}, RF: [][]string{{`logout`}, {``}, {`never-zzz`}}},
 }
 
 var (
@@ -261,6 +268,22 @@ func genScope(r *Rng, i int, tier string) string {
 		if r.Chance(50) {
 			in.IH, in.IS = nil, nil
 		}
+	}
+	// spread the expressions of a single-file configuration over 1-3 files (sometimes with an empty
+	// file or a duplicated line): the effective list must be the concatenation
+	if len(in.RE) > 0 && len(in.RF) == 0 && r.Chance(60) {
+		nf := 2 + r.Intn(2)
+		fs := make([][]string, nf)
+		for _, l := range in.RE {
+			k := r.Intn(nf)
+			fs[k] = append(fs[k], l)
+			if r.Chance(10) {
+				j := r.Intn(nf)
+				fs[j] = append(fs[j], l) // the same line again, maybe in another file
+			}
+		}
+		in.RE = nil
+		in.RF = fs
 	}
 	D := 0
 	switch k := r.Intn(100); {
